@@ -34,7 +34,10 @@ type Ctx struct {
 	seq      int
 }
 
-func (a *Ctx) id(p string) string { a.seq++; return fmt.Sprintf("%s%d-%06x", p, a.seq, a.Rng.Intn(1<<24)) }
+func (a *Ctx) id(p string) string {
+	a.seq++
+	return fmt.Sprintf("%s%d-%06x", p, a.seq, a.Rng.Intn(1<<24))
+}
 
 func isSig(e *etree.Element) bool { return e.Tag == "Signature" }
 
